@@ -70,12 +70,17 @@ def jobs(tier, seed):
     specs = []
     for v in vals:
         for ftype, unc, axes, vv in configs(tier, v):
-            if tier == "quick":
-                specs.append((ftype, unc, axes, vv, tier, ("AB",)))
-            else:
-                specs.append((ftype, unc, axes, vv, tier, ("AB", "BA")))
-    # heavy jobs first (xy has the most artists)
+            opts = OPTS if tier == "quick" else OPTS_THOROUGH
+            nchunk = {"xy": 3, "hist": 2}.get(ftype, 1) * (1 if tier == "quick" else 2)
+            for c in range(nchunk):
+                specs.append((ftype, unc, axes, vv, tier, tuple(opts[c::nchunk])))
+    # heavy jobs first (xy plots have the most artists), cheap ones fill the gaps
+    weight = {"xy": 0, "hist": 1, "indexed": 2, "unbinned": 3}
+    specs.sort(key=lambda s: (weight[s[0]], s[3]))
     return specs
+
+
+DETCHECK_JOB = 0
 
 
 def bound(tier, seed):
@@ -501,11 +506,6 @@ def _fails(cfg, observable):
     return _MEMO[key].get(observable)
 
 
-def _obs_for_roles(observable, old_roles, new_roles):
-    """observable names carry the role of the fit; removing the other fit keeps the name"""
-    return observable
-
-
 def minimise(cfg, bad):
     """greedy: drop the second fit, linear axes, the smallest option, the simplest uncertainty configuration"""
     obs = bad["observable"]
@@ -515,8 +515,9 @@ def minimise(cfg, bad):
         if ("fit%s:" % r) in obs or (":legend:%s:" % r) in obs:
             role = r
     trials = []
-    if len(cur["roles"]) > 1 and role is not None and not obs.startswith("fig1") and not obs.startswith("fig0"):
-        trials.append(("roles", [role]))
+    if len(cur["roles"]) > 1 and not obs.startswith("fig1") and not obs.startswith("fig0"):
+        for r in [role] if role is not None else ["A", "B"]:
+            trials.append(("roles", [r]))
     trials.append(("axes", "lin"))
     pan = None
     for k in ("ratio", "residual", "pull"):
@@ -537,8 +538,8 @@ def minimise(cfg, bad):
         t[dim] = val
         if dim == "unc" and val not in R.UNC[t["ftype"]]:
             continue
-        if dim == "roles":
-            pass
+        if dim == "roles" and len(cur["roles"]) == 1:
+            continue
         b = _fails(t, obs)
         if b is not None and b["mode"] == curbad["mode"]:
             cur, curbad = t, b
@@ -553,13 +554,12 @@ def sig_of(cfg, observable):
 
 
 def run_job(spec):
-    ftype, unc, axes, v, tier, pairs = spec
+    ftype, unc, axes, v, tier, opts = spec
     res = JobResult()
-    opts = OPTS if tier == "quick" else OPTS_THOROUGH
     _MEMO.clear()
-    rolesets = [["A"]] + [list(p) for p in pairs]
+    rolesets = [["A"], ["A", "B"]]
     if tier == "thorough":
-        rolesets.append(["B"])
+        rolesets += [["B", "A"], ["B"]]
     seen_sigs = set()
     worst = 0.0
     for opt in opts:
